@@ -3,7 +3,7 @@
 
     python3 gen/C13_gen.py <part>[+<part>] --out <builddir> --seed N --tier quick|thorough
 
-(parts: cm64 cm32 cmld int8 num8 w1632 w64 cstr scen) writes <builddir>/C13_gen_<part>[_<part>].hpp: constexpr argument tables (bit patterns) and the list of
+(parts: cm64 cm32 cmld int8 num8 w1632 w64 cstr wstr scen) writes <builddir>/C13_gen_<part>[_<part>].hpp: constexpr argument tables (bit patterns) and the list of
 (function, table) instantiations `C13_OBLIGATIONS(X)` that props/C13_cteval.cpp (compiled with -DC13_PART_<PART>)
 turns into  (a) constexpr result tables computed by the compiler, each block wrapped in the non-fatal
 constant-expression probe, and (b) run-time calls on the same arguments laundered through volatile.
@@ -513,10 +513,75 @@ def build_part(L, part, seed, tier):
         L.ob('strncmp', 'strncmp', 's2n')
         for f in ('strchr', 'strrchr', 'traits_find'):
             L.ob(f, f, 'sc')
+    elif part == 'wstr':
+        big = tier == 'thorough'
+
+        def pk(seq):
+            v = 0
+            for i, c in enumerate(seq):
+                v |= c << (4 * i)
+            return v
+
+        prefixes = [[], [1], [1, 2], [3, 3, 1]] if big else [[], [1, 2]]
+        suffixes = [[], [1]] if big else [[]]
+        pairs = []
+        for pre in prefixes:
+            for suf in suffixes:
+                for a in range(13):
+                    for b in range(13):
+                        s1 = pre + ([a] + suf if a else [])
+                        s2 = pre + ([b] + suf if b else [])
+                        pairs.append((tuple(s1), tuple(s2)))
+        for i in range(600 if big else 120):            # longer related sequences
+            n = rng.randint(3, 7)
+            s1 = [rng.randint(1, 12) for _ in range(n)]
+            cut = rng.randint(0, n)
+            s2 = s1[:cut] + [rng.randint(1, 12) for _ in range(rng.randint(0, 3))]
+            if rng.getrandbits(1):
+                s2 = s1[cut:]                           # substring / suffix
+            pairs.append((tuple(s1), tuple(s2[:7])))
+        pairs = uniq(pairs)
+        seqs = uniq([p[0] for p in pairs] + [p[1] for p in pairs] + [(a, b) for a in range(1, 13) for b in range(1, 13)])
+
+        def counts(*lens):
+            out = {0, 1}
+            for l in lens:
+                out |= {max(l - 1, 0), l, l + 1, l + 2}
+            return sorted(out)
+
+        L.table('wu2', [(a, b) for a in range(1, 13) for b in range(1, 13)])
+        L.table('w1', [(pk(s),) for s in seqs])
+        L.table('w2', [(pk(a), pk(b)) for a, b in pairs])
+        L.table('w3', uniq([(pk(a), pk(b), n) for a, b in pairs for n in counts(len(a), len(b))]))
+        L.table('w1n', uniq([(pk(s), n) for s in seqs for n in counts(len(s))]))
+        cs = (1, 2, 3, 7, 11, 12)
+        L.table('w1cn', uniq([(pk(s), c, n) for s in seqs[:: (1 if big else 3)] for c in set(cs) | set(s[:2]) for n in counts(len(s)) if n <= len(s)]))
+        L.table('wcn', [(c, n) for c in range(1, 13) for n in range(0, 6)])
+        for sfx in ('c8', 'u8', 'u16', 'u32', 'wc'):
+            for f in ('traits_lt', 'traits_eq'):
+                L.ob('%s_%s' % (f, sfx), '%s.%s' % (f, sfx), 'wu2')
+            L.ob('traits_length_' + sfx, 'traits_length.' + sfx, 'w1')
+            L.ob('traits_compare_' + sfx, 'traits_compare.' + sfx, 'w3')
+            L.ob('traits_find_' + sfx, 'traits_find.' + sfx, 'w1cn')
+            for f in ('traits_copy', 'traits_move_up', 'traits_move_down'):
+                L.ob('%s_%s' % (f, sfx), '%s.%s' % (f, sfx), 'w1n')
+            L.ob('traits_assign_' + sfx, 'traits_assign.' + sfx, 'wcn')
+            for f in ('sv_compare', 'sv_less', 'sv_find', 'str_compare'):
+                L.ob('%s_%s' % (f, sfx), '%s.%s' % (f, sfx), 'w2')
+            L.ob('sv_find_ch_' + sfx, 'sv_find_ch.' + sfx, 'wu2s')
+        for fid, name, tab in (('strncpy_x', 'strncpy', 'w1n'), ('strncat_x', 'strncat', 'w3'), ('strncmp_x', 'strncmp_exact', 'w3'),
+                               ('wcsncpy_x', 'wcsncpy', 'w1n'), ('wcsncat_x', 'wcsncat', 'w3'), ('wcsncmp_x', 'wcsncmp', 'w3'),
+                               ('wcscmp_x', 'wcscmp', 'w2'), ('wcslen_x', 'wcslen', 'w1'), ('wcsstr_x', 'wcsstr', 'w2'), ('wcsspn_x', 'wcsspn', 'w2'),
+                               ('wmemcmp_x', 'wmemcmp', 'w3'), ('wmemchr_x', 'wmemchr', 'w1cn'), ('wmemcpy_x', 'wmemcpy', 'w1n'),
+                               ('wmemmove_up_x', 'wmemmove_up', 'w1n'), ('wmemmove_down_x', 'wmemmove_down', 'w1n'), ('wmemset_x', 'wmemset', 'wcn')):
+            L.ob(fid, name, tab)
+        L.table('wu2s', uniq([(pk(s), c) for s in seqs[:: (1 if big else 3)] for c in set(cs) | set(s[:2])]))
     elif part == 'scen':
         st = scen_tables(rng, tier)
         L.table('sd', st)
-        for f in ('scen_static_vector', 'scen_inplace_string', 'scen_string_view', 'scen_charconv', 'scen_algorithm', 'scen_chrono', 'scen_array_bitset'):
+        for f in ('scen_static_vector', 'scen_inplace_string', 'scen_string_view', 'scen_charconv', 'scen_algorithm', 'scen_chrono', 'scen_array_bitset',
+                  'scen_ranges_i8', 'scen_ranges_u8', 'scen_ranges_i16', 'scen_ranges_u16', 'scen_ranges_i32', 'scen_ranges_u32', 'scen_ranges_i64',
+                  'scen_ranges_u64', 'scen_ranges_c16'):
             L.ob(f, f.replace('scen_', 'scenario.'), 'sd')
     else:
         raise SystemExit('unknown part ' + part)
